@@ -24,6 +24,7 @@ ASSUMPTIONS = [
     "C03.GUARD: a child whose slot is Ready is never polled again",
 ]
 RULES = {
+    "C07.CTOR": "entry point: every operand becomes the child of its own position, converted by into_future / into_stream only; nothing reorders, drops or duplicates operands",
     "C07.LIVE": "premises from the wake protocol, re-checked here for this family: task waker registered first, child polled with its own sub-waker (or the caller's context), no readiness lock across a child poll, a cleared bit is followed by a poll, re-arm after an item, readiness primitives / Wake::wake forward correctly",
     "C07.OK": "Ready(Ok) edge => same-call return of that payload, nothing polled afterwards; Ok returns only carry polled payloads",
     "C07.SLOT": "Ready(Err) edge => error stored in the child's own slot, completed+1 once, state Ready; counter written nowhere else",
@@ -41,6 +42,8 @@ def run(ctx):
         M = ctx.model(cfg)
         units = families.passthrough_units(M, ("race_ok",))
         c01.live_premises(ctx, M, [u for u in units if u.container != "vec"], "C07.LIVE")
+        from . import ctors
+        ctors.run_family(ctx, M, units, "C07.CTOR", cfg)
         for u in units:
             flow.rule_integrity(ctx, u.bi, "C07.OK", u.where, ("Ready(Ok)",), "the winner's value")
             if u.container != "vec":
